@@ -128,11 +128,18 @@ pub fn run() {
     let mut monotone = true;
     let mut last_cap = 0usize;
     let mut growths = 0usize;
+    let mut issued: Vec<u64> = Vec::with_capacity(MAX);
     while w.big.len() < MAX {
         let n = w.big.len();
-        if guard(|| w.big.create((Plain(n as u32),))).is_err() {
-            failed_at = n as i64;
-            break;
+        match guard(|| w.big.create((Plain(n as u32),))) {
+            Ok(e) => {
+                let (k, v) = e.into_any().raw();
+                issued.push(((k as u64) << 32) | v as u64);
+            }
+            Err(_) => {
+                failed_at = n as i64;
+                break;
+            }
         }
         if w.big.capacity() < last_cap || w.big.capacity() < w.big.len() || w.big.capacity() > MAX {
             monotone = false;
@@ -143,6 +150,30 @@ pub fn run() {
         last_cap = w.big.capacity();
     }
     println!("B7 len={} cap={} monotone={} failed_at={} growths_ge1={}", w.big.len(), w.big.capacity(), monotone as u8, failed_at, (growths >= 1) as u8);
+    // B12 (C08): the 2^24 handles issued on the way are pairwise distinct, and a handle from the
+    // upper half of the range leads to its own entity
+    let n_issued = issued.len();
+    let probe_ok = {
+        let mut ok = true;
+        for &i in &[0usize, 1, 65_535, 65_536, 65_537, (1 << 20) + 3, (1 << 23) + 1, MAX - 1] {
+            if i < n_issued {
+                let raw = issued[i];
+                if let Ok(e) = EntityAny::from_raw(((raw >> 32) as u32, raw as u32)) {
+                    if w.big.view(e).map(|v| v.component::<Plain>().0) != Some(i as u32) {
+                        ok = false;
+                    }
+                } else {
+                    ok = false;
+                }
+            }
+        }
+        ok
+    };
+    issued.sort_unstable();
+    let dups = issued.windows(2).filter(|p| p[0] == p[1]).count();
+    let first_dup = issued.windows(2).find(|p| p[0] == p[1]).map(|p| format!("{}.{}", p[0] >> 32, p[0] & 0xffff_ffff)).unwrap_or("-".into());
+    drop(issued);
+    println!("B12 issued={} duplicates={} first={} own_entity={}", n_issued, dups, first_dup, probe_ok as u8);
     drop(w);
     // B11: every world of this run has been dropped; no array was resized or released with a
     // layout that is not its own (harness/alloc_check), whatever panicked on the way
